@@ -514,4 +514,32 @@ theorem cdSync_laws : (cdSync N).Laws where
     commuting lemmas of the sync bucket carry the hypothesis `keySynced h ≠ syncedToKey`; this shows it is needed. -/
 theorem syncedTo_key_collision : keySynced 0x73796e636564746f = syncedToKey := by decide
 
+-- ------------------------------------------------------------------ a concrete naming (non-vacuity)
+
+theorem charOfByte_toNat (a : UInt8) : (Char.ofNat a.toNat).toNat = a.toNat := by
+  have h : a.toNat < 256 := a.toNat_lt
+  have hv : a.toNat.isValidChar := Or.inl (by omega)
+  simp [Char.ofNat, hv, Char.toNat, Char.ofNatAux]
+theorem charOfByte_inj (a b : UInt8) (h : Char.ofNat a.toNat = Char.ofNat b.toNat) : a = b := by
+  have := congrArg Char.toNat h
+  rw [charOfByte_toNat, charOfByte_toNat] at this
+  exact UInt8.toNat_inj.mp this
+theorem mapChar_inj (a b : Bytes) (h : a.map (fun b => Char.ofNat b.toNat) = b.map (fun b => Char.ofNat b.toNat)) :
+    a = b := by
+  induction a generalizing b with
+  | nil => cases b <;> simp_all
+  | cons x a ih =>
+    cases b with
+    | nil => simp at h
+    | cons y b =>
+      simp only [List.map_cons, List.cons.injEq] at h
+      rw [charOfByte_inj x y h.1, ih b h.2]
+theorem stringOfAscii_inj (a b : Bytes) (h : stringOfAscii a = stringOfAscii b) : a = b :=
+  mapChar_inj a b (String.ofList_inj.mp h)
+
+/-- bytes read as Latin-1 text: an injective naming of every kind -/
+def asciiNames : Names :=
+  ⟨stringOfAscii, stringOfAscii, stringOfAscii, stringOfAscii, stringOfAscii,
+   stringOfAscii_inj, stringOfAscii_inj, stringOfAscii_inj, stringOfAscii_inj⟩
+
 end MW.LedBytes
